@@ -315,6 +315,19 @@ func commandChain(n int) []byte {
 	return b.Bytes()
 }
 
+// regressions: concrete inputs that once broke the property.
+var regressions = []struct {
+	typ  string
+	data []byte
+}{
+	// AvailableCommands: root [1,2]; literal "a" whose only child is itself; a second literal "a" whose only child is
+	// itself; root index 0.  brigodier's Node.AddChild merges same-named children recursively: unbounded recursion,
+	// `fatal error: stack overflow`.
+	{"packet.AvailableCommands", []byte{3, 0x00, 2, 1, 2, 0x01, 1, 1, 1, 'a', 0x01, 1, 2, 1, 'a', 0}},
+	// TagsUpdate: 2^31-1 tags claimed in 5 bytes (uncapped make(map, n))
+	{"config.TagsUpdate", []byte{0xff, 0xff, 0xff, 0xff, 0x07}},
+}
+
 func buildCases(run *hx.Run, entries []pk.Entry) []tcase {
 	r := run.Rng
 	var cases []tcase
@@ -323,6 +336,24 @@ func buildCases(run *hx.Run, entries []pk.Entry) []tcase {
 	}
 	addX := func(idx int, class string, data []byte) {
 		cases = append(cases, tcase{idx: idx, class: class, data: data, nomod: true})
+	}
+	// fixed regression cases first (witnesses of past defects): always run, on the first and last registered protocol
+	for _, fx := range regressions {
+		var first, last = -1, -1
+		for idx, e := range entries {
+			if e.Name == fx.typ {
+				if first < 0 {
+					first = idx
+				}
+				last = idx
+			}
+		}
+		if first >= 0 {
+			addX(first, "regression", fx.data)
+			if last != first {
+				addX(last, "regression", fx.data)
+			}
+		}
 	}
 	nValid := run.Scale(1, 3)
 	nMut := run.Scale(5, 16)
